@@ -83,7 +83,7 @@ def run_variant(v):
             if not h:
                 raise RuntimeError("no commit with subject containing %r" % v["revert"])
             d = subprocess.check_output(["git", "-C", REPO, "show", "--format=", h], text=True)
-            r = subprocess.run(["patch", "-R", "-p1", "-s", "-d", scratch], input=d, text=True, capture_output=True)
+            r = subprocess.run(["patch", "-R", "-p1", "-s", "-F3", "-d", scratch], input=d, text=True, capture_output=True)
             if r.returncode != 0:
                 raise RuntimeError("cannot revert %s in scratch: %s" % (h[:8], r.stdout + r.stderr))
         code, out = run_check(v["property"], scratch)
